@@ -403,6 +403,8 @@ class Executor:
                 return v.fields[n]
             if isinstance(v, tuple):
                 return v[n]
+            if isinstance(v, Closure):
+                return v.captures[n]
             if isinstance(v, Enum):
                 # field of an enum without downcast: single-variant enums
                 raise Unsupported('field of enum without downcast')
@@ -439,6 +441,10 @@ class Executor:
                 f = list(base)
                 f[n] = self.update(f[n], rest, val)
                 return tuple(f)
+            if isinstance(base, Closure):
+                f = list(base.captures)
+                f[n] = self.update(f[n], rest, val)
+                return Closure(base.path, tuple(f))
             if hasattr(base, 'with_field'):
                 return base.with_field(n, self.update(base.field(n), rest, val))
             raise Unsupported('update field of %r' % type(base))
@@ -701,7 +707,7 @@ class Executor:
             t = self.operand_type(frame, o)
             w = width_of_type(t) if t else None
             if w:
-                if t.strip()[0] == 'i':
+                if t.strip()[0] == 'i' and not self._signed_ok:
                     raise Unsupported('signed arithmetic on ' + t)
                 return w
         for v in vals:
@@ -714,6 +720,8 @@ class Executor:
     def eval_op(self, frame, rv: ROp, dest_ty=''):
         op = rv.op
         vals = [self.eval_operand(frame, a) for a in rv.args]
+        # enum discriminants are compared as isize; equality is sign-agnostic
+        self._signed_ok = op in ('Eq', 'Ne')
         if op == 'PtrMetadata':
             v = vals[0]
             if isinstance(v, Seq):
@@ -742,6 +750,10 @@ class Executor:
             a = self.concretize(a)
         if isinstance(b, Choice):
             b = self.concretize(b)
+        if hasattr(a, 'to_fp'):
+            a = a.to_fp()
+        if hasattr(b, 'to_fp'):
+            b = b.to_fp()
         sym = is_sym(a) or is_sym(b)
         boolish = isinstance(a, (bool, z3.BoolRef)) or isinstance(b, (bool, z3.BoolRef))
         floatish = isinstance(a, (float, z3.FPRef)) or isinstance(b, (float, z3.FPRef))
@@ -1340,6 +1352,12 @@ class Executor:
             return out
         finally:
             self.solver.pop()
+
+    def tmp_cell(self, value):
+        """a harness-owned cell holding value -> &mut reference to it"""
+        name = '__tmp%d' % self._fresh()
+        self.roots[name] = value
+        return Ref('root', name)
 
     def _fresh(self):
         self._fresh_n = getattr(self, '_fresh_n', 0) + 1
